@@ -392,7 +392,7 @@ def r4_recorded_order(ctx):
                                  f"`{fld}={astx.u(kw[fld])[:60]}` is not a score ranking, a selector component, a tier list, a previous state's order or a single group: "
                                  "set/dict iteration order could become outcome order")
     if n < 20:
-        ctx.violated(None, None, "recorded group sites", f"only {n} elected/eliminated/remaining arguments found")
+        ctx.vanished("recorded group sites" + ": " + f"only {n} elected/eliminated/remaining arguments found")
     # tiers: the list is built from a dict keyed by size and sorted by that key (C06.R3); groups are sets
     f = prog.find_func("tiebroken_ranking")
     ctx.consult(f)
